@@ -50,7 +50,7 @@ def plan(tier, seed):
 def mandatory(tier):
     out = [f"axes/{a}->{b}" for a, b in itertools.product(AXES, AXES)]
     out += [f"warp/{a}" for a in AXES] + [f"sample/{a}" for a in AXES] + [f"exp/{a}" for a in AXES]
-    out += ["shared_grid", "per_field_grids", "FlowField", "sitk", "helpers"]
+    out += ["shared_grid", "per_field_grids", "per_field_grids/same_spacing_other_orientation", "FlowField", "sitk", "helpers"]
     return out
 
 
@@ -84,7 +84,10 @@ def run_item(ctx, item):
             p["route"] = "center"
             p.pop("origin", None)
             p["center"] = gen.f32(rng.normal(size=D) * 4).tolist()
-            p["spacing"] = gen.f32(np.asarray(p0["spacing"]) * rng.choice([0.5, 1.0, 1.5, 2.0], size=D)).tolist()
+            if i % 3 == 1:  # same size and spacing, only position and orientation differ between the fields
+                ctx.bucket("per_field_grids/same_spacing_other_orientation")
+            else:
+                p["spacing"] = gen.f32(np.asarray(p0["spacing"]) * rng.choice([0.5, 1.0, 1.5, 2.0], size=D)).tolist()
         params.append(p)
     grids = [gen.make_grid(p) for p in params]
     if shared:
